@@ -150,13 +150,13 @@ pub fn supervise(prop: &str, tier: &str, level: &str, args: &[String]) -> i32 {
         std::env::var("HCVERIF_STALL_S")
             .ok()
             .and_then(|s| s.parse().ok())
-            .unwrap_or(60),
+            .unwrap_or(180),
     );
     let hard_limit = Duration::from_secs(
         std::env::var("HCVERIF_HARD_S")
             .ok()
             .and_then(|s| s.parse().ok())
-            .unwrap_or(if tier == "quick" { 900 } else { 6 * 3600 }),
+            .unwrap_or(if tier == "quick" { 3600 } else { 12 * 3600 }),
     );
     let t0 = Instant::now();
     let mut child = std::process::Command::new(&exe)
@@ -224,7 +224,7 @@ pub fn supervise(prop: &str, tier: &str, level: &str, args: &[String]) -> i32 {
         verdict: Option<Option<String>>,
     }
     let mut cands: Vec<Cand> = vec![];
-    let replay_stall = Duration::from_secs(stall_limit.as_secs().min(30).max(5));
+    let replay_stall = Duration::from_secs((stall_limit.as_secs() / 2).clamp(5, 90));
     for (k, c) in cases.iter().enumerate().filter(|(_, c)| !c.is_empty()) {
         let Ok(case): Result<Value, _> = serde_json::from_str(c) else {
             continue;
